@@ -1011,14 +1011,14 @@ enclosing loops `Γ`) compiled in place either lands with its value (as `segment
 reference trace, or — when the reference evaluator yields `brk l`/`cont l` — has jumped to the
 `clearMark` resp. the `continue` label of the loop `l` names, the scopes opened inside that loop
 popped, the data stack holding only values above the loop's mark (`JumpedF`). -/
-theorem segment_lemma_Fx (ls : List (Option String)) (es : List Expr) (hne : es ≠ []) (he : FxList ls es = true)
-    (isFn : Nat → Bool) (c : Ctx) (hfn : c.funcname = "") (gs : GS) (r : (List Instr × Bool) × GS)
+theorem segment_lemma_Fx (ls : List (Option String)) (self : String) (es : List Expr) (hne : es ≠ [])
+    (he : FxList ls self es = true) (isFn : Nat → Bool) (c : Ctx) (hfn : FnameOk self c) (gs : GS) (r : (List Instr × Bool) × GS)
     (hc : (compileBegin isFn c es).run gs = .ok r) (Γ : List LCtx) (hls : Γ.map (·.label) = ls) (hg : GsOk Γ gs)
     (m : Nat → Nat) (s : St) (rs : Ref.St) (env : Nat)
     (pre post : List Instr) (hrel : RelF m s rs env) (hgen : GenOk gs r.2 s) (hctx : CtxF Γ c.scopes s rs)
     (hlf : LoopsFinal r.2 s) (hlo : LsOut pre gs.loops.length r.2.loops.length) (hseg : Seg s pre r.1.1 post)
     (n : Nat) : SimX r.1.1 Γ m s rs env (Ref.evalBegin n es env rs) :=
-  segment_Fx_begin ls es hne he isFn c hfn gs r hc Γ hls hg m s rs env pre post hrel hgen hctx hlf hlo hseg n
+  segment_Fx_begin ls self es hne he isFn c hfn gs r hc Γ hls hg m s rs env pre post hrel hgen hctx hlf hlo hseg n
 
 /-- **`CompileCorrect` for F2 with `break`/`continue`**: program texts whose top-level forms are F2
 forms or `for` loops (also under `begin`/`cond`/`let`/`letseq`/`newScope`) that leave a loop —
